@@ -150,3 +150,25 @@ package paymentsdb
 //@   props C16
 //@   loop * havoc
 //@   site call Put: assert arg(key) == paymentFailInfoKey && len(arg(value)) == 1 && arg(value)[0] == reason
+//@
+//@ func (m *MPPayment) NeedWaitAttempts
+//@   props C16
+//@   requires m != nil && m.State != nil
+//@   let rem = m.State.RemainingAmt
+//@   ensures result1 == nil && rem != 0 ==> (m.Status == StatusInitiated || m.Status == StatusInFlight || m.Status == StatusFailed) &&
+//@           (result0 <==> (m.Status == StatusInFlight && (m.State.HasSettledHTLC || m.State.PaymentFailed)))
+//@   ensures result1 == nil && rem == 0 ==> (m.Status == StatusInFlight || m.Status == StatusSucceeded) && (result0 <==> m.Status == StatusInFlight)
+//@   ensures rem != 0 && m.Status == StatusSucceeded ==> result1 != nil
+//@   ensures rem == 0 && (m.Status == StatusInitiated || m.Status == StatusFailed) ==> result1 != nil
+//@
+//@ func (m *MPPayment) AllowMoreAttempts
+//@   props C16
+//@   requires m != nil && m.State != nil
+//@   ensures result0 ==> result1 == nil && m.State.RemainingAmt != 0 && m.Status != StatusSucceeded && ret(Registrable) == nil
+//@   ensures result1 == nil && m.State.RemainingAmt != 0 && m.Status != StatusSucceeded ==> (result0 <==> ret(Registrable) == nil)
+//@   ensures m.State.RemainingAmt == 0 ==> !result0
+//@
+//@ func (m *MPPayment) Terminated
+//@   props C16
+//@   ensures result <==> ret(updatable) != nil
+//@   site call updatable: assert arg(0) == m.Status
